@@ -9,6 +9,7 @@ import (
 	"sync"
 
 	"github.com/ipld/go-storethehash/store/types"
+	"github.com/ipld/go-storethehash/store/verifhook"
 )
 
 const CIDSizePrefix = 4
@@ -239,6 +240,7 @@ func (cp *FreeList) ToGC() (string, error) {
 	if err != nil {
 		return "", err
 	}
+	verifhook.Yield("freelist.ToGC.afterRename")
 
 	cp.file, err = os.OpenFile(fileName, os.O_RDWR|os.O_APPEND|os.O_CREATE, 0o644)
 	if err != nil {
